@@ -64,8 +64,11 @@ impl Panic {
     }
     /// Path relative to the repository root ("crates/…"), or the raw path (e.g. a std location).
     pub fn rel_file(&self) -> String {
-        match self.file.find("crates/") {
-            Some(i) if self.file.starts_with("/repo/") || i == 0 => self.file[i..].to_string(),
+        if self.file.starts_with("crates/") {
+            return self.file.clone();
+        }
+        match self.file.find("/crates/") {
+            Some(i) if !self.file.starts_with("/rustc/") => self.file[i + 1..].to_string(),
             _ => self.file.clone(),
         }
     }
@@ -76,6 +79,6 @@ impl Panic {
         format!("panic at {}: {} [source line: {}]", self.site(), crate::clip(&self.msg, 200), self.source_line())
     }
     pub fn in_repo(&self) -> bool {
-        self.file.starts_with("/repo/") || self.file.starts_with("crates/")
+        self.file.starts_with("crates/") || (self.file.contains("/crates/") && !self.file.starts_with("/rustc/") && !self.file.contains("/.cargo/"))
     }
 }
